@@ -987,8 +987,10 @@ class parser(object):
                 res.hour = self._adjust_ampm(hour, info.ampm(tokens[idx + 2]))
                 idx += 1
             else:
-                # Year, month or day
-                ymd.append(value)
+                # Year, month or day.  Keep the text of a plain integer, so
+                # that a year written with leading zeros ("0099") is
+                # recognised as a full year rather than a two-digit one.
+                ymd.append(value_repr if value_repr.isdigit() else value)
             idx += 1
 
         elif info.ampm(tokens[idx + 1]) is not None and (0 <= value < 24):
